@@ -33,6 +33,12 @@ func init() {
 			"\t} else if s.slots[ix].seq != seq {\n\t\tif err := s.checkSize(slot); err != nil {\n\t\t\treturn false, err\n\t\t}\n", "\t} else if s.slots[ix].seq != seq {\n", "C20-R2"},
 		mutant{"duplicate overwrites the stored slot", "sequenced_slots.go", "\t\ts.slots[ix] = newSlot\n\t\treturn true, nil\n\t}\n\n\treturn false, nil", "\t\ts.slots[ix] = newSlot\n\t\treturn true, nil\n\t}\n\n\ts.slots[ix] = newSlot\n\treturn false, nil", "C20-R2"},
 		mutant{"offsetter reset while slots remain", "slot_sequencer.go", "\t\tif s.container.Size() == 0 {\n\t\t\ts.offsetter.Reset()\n\t\t}", "\t\tif s.container.Size() <= 1 {\n\t\t\ts.offsetter.Reset()\n\t\t}", "C20-R3"},
+		mutant{"offsetter reset before the popped slot is translated", "slot_sequencer.go",
+			"\t\tslot = s.offsetter.Offset(slot)\n\n\t\tif s.container.Size() == 0 {\n\t\t\ts.offsetter.Reset()\n\t\t}\n\n\t\ts.bytes -= slot.Length", "\t\ts.bytes -= slot.Length\n\t\tif s.container.Size() == 0 {\n\t\t\ts.offsetter.Reset()\n\t\t}\n\t\tslot = s.offsetter.Offset(slot)", "C20-R3"},
+		mutant{"Pop returns the next higher sequence number", "sequenced_slots.go",
+			"\tif ix < len(s.slots) && s.slots[ix].seq == seq {\n\t\tslot := s.slots[ix].Slot", "\tif ix < len(s.slots) && s.slots[ix].seq >= seq {\n\t\tslot := s.slots[ix].Slot", "C20-R3"},
+		mutant{"Push searches with a strict bound", "sequenced_slots.go",
+			"\tix := sort.Search(len(s.slots), func(i int) bool {\n\t\treturn s.slots[i].seq >= seq\n\t})\n\n\tnewSlot", "\tix := sort.Search(len(s.slots), func(i int) bool {\n\t\treturn s.slots[i].seq > seq\n\t})\n\n\tnewSlot", "C20-R3"},
 		mutant{"popped slot returned without offsetting", "slot_sequencer.go", "\t\tslot = s.offsetter.Offset(slot)\n", "\t\t_ = s.offsetter.Offset(slot)\n", "C20-R3"},
 		mutant{"discard recorded at the offset position", "slot_offsetter.go", "\toffset := s.tree.SumUntil(slot.Index)\n\ts.tree.Add(slot.Index, slot.Length)", "\toffset := s.tree.SumUntil(slot.Index)\n\ts.tree.Add(slot.Index-offset, slot.Length)", "C20-R3"},
 		mutant{"add ignores earlier discards", "slot_offsetter.go", "\tslot.Index += s.tree.Sum()\n", "", "C20-R3"},
@@ -240,7 +246,7 @@ func runC20(c *Ctx) {
 	}
 
 	// ------------------------------------------------------------------------------------------------ R3
-	c.rule("C20-R3", "offsetter pairing and ordered container", 8)
+	c.rule("C20-R3", "offsetter pairing and ordered container", 12)
 	{
 		pop := sm("Pop")
 		var off *ssa.Call
@@ -305,6 +311,16 @@ func runC20(c *Ctx) {
 		}
 		if n == 0 {
 			c.Notes = append(c.Notes, "Pop never resets the offsetter (allowed: it only costs tree capacity)")
+		}
+		// the popped slot is translated before the offsets are forgotten
+		for _, rc := range callsToFn(pop, om("Reset")) {
+			before := false
+			for _, oc := range callsToFn(pop, om("Offset")) {
+				if dominatesInstr(oc.(ssa.Instruction), rc.(ssa.Instruction)) {
+					before = true
+				}
+			}
+			c.check(before, pop, "offset before reset", rc.Pos(), "the popped slot is offset before the offsetter is reset", "the offsetter is reset before the slot just popped has been translated: the last slot of a drained sequencer is returned with its original index although packets in front of it were discarded")
 		}
 	}
 	{
@@ -400,6 +416,52 @@ func runC20(c *Ctx) {
 				}
 			}
 		})
+		// the search is a lower bound (first element with seq >= wanted) and a hit is an exact match
+		for _, fn := range []*ssa.Function{cp, cm("Pop")} {
+			lower := false
+			for _, cl := range fn.AnonFuncs {
+				for _, r := range returnsOf(cl) {
+					if bo, ok := stripConv(r.Results[0]).(*ssa.BinOp); ok {
+						op, x, y := bo.Op, bo.X, bo.Y
+						if _, isFV := resolveCell(stripConv(x)).(*ssa.Parameter); isFV || isFreeVarLoad(x) {
+							// wanted OP element  ->  element (mirrored OP) wanted
+							x, y = y, x
+							switch op {
+							case token.LEQ:
+								op = token.GEQ
+							case token.LSS:
+								op = token.GTR
+							case token.GEQ:
+								op = token.LEQ
+							case token.GTR:
+								op = token.LSS
+							}
+						}
+						_ = y
+						if op == token.GEQ && loadedField(x) != nil && loadedField(x).Name() == "seq" {
+							lower = true
+						}
+					}
+				}
+			}
+			c.check(lower, fn, "lower-bound search", fn.Pos(), "the search predicate is element.seq >= seq", "the ordered search is not a lower bound on the sequence number (element.seq >= seq): an equal sequence number is skipped, so duplicates are inserted / stored slots are not found")
+		}
+		{
+			pp := cm("Pop")
+			exact := false
+			for _, r := range returnsOf(pp) {
+				if len(r.Results) == 2 && isConstBool(r.Results[1], true) {
+					for _, l := range guardsOf(r.Block()) {
+						if op, x, y, ok := l.cmp(); ok && op == token.EQL {
+							if (loadedField(x) != nil && loadedField(x).Name() == "seq") || (loadedField(y) != nil && loadedField(y).Name() == "seq") {
+								exact = true
+							}
+						}
+					}
+				}
+			}
+			c.check(exact, pp, "exact match", pp.Pos(), "a slot is returned only for its own sequence number", "Pop returns a slot whose sequence number is not equal to the one asked for: the caller gets (and discards) another packet's bytes")
+		}
 		c.check(ins, cp, "ordered insert", cp.Pos(), "a slot is inserted at the position found by the ordered search", "the container does not insert at the position of the ordered search: slots are no longer sorted by sequence number and lookups miss them")
 		pp := cm("Pop")
 		rem := false
